@@ -13,6 +13,7 @@ import (
 	dpf "github.com/lidofinance/dc4bc/fsm/state_machines/dkg_proposal_fsm"
 	spf "github.com/lidofinance/dc4bc/fsm/state_machines/signature_proposal_fsm"
 	sif "github.com/lidofinance/dc4bc/fsm/state_machines/signing_proposal_fsm"
+	"github.com/lidofinance/dc4bc/fsm/types/requests"
 	"github.com/lidofinance/dc4bc/storage"
 
 	"verif/mc/world"
@@ -258,6 +259,32 @@ func c10(tier string, args []string) int {
 					classes["reinit-envelope|"+bs.Phase] = true
 					if got := string(after.Rounds()[rec.Round]); got != roundBefore {
 						r.Violation("C10/reinit-posted-under-another-rounds-id", fmt.Sprintf("in %s an (unauthenticated) reinitialisation message of a fresh round %s posted under this round's id replaced this round's state: now %q (error: %v)", bs, fresh[:8], after.RoundState(rec.Round), err), map[string]interface{}{"n": nt.n, "t": nt.t, "base": bs.String(), "reinit_round": fresh})
+					}
+				}
+				// ---- (1c) an opening proposal (never verified: it brings the keys) posted under this
+				// round's id with white space around it - the genuine one again, and a stranger's
+				// with other keys: whatever round it opens, this round's record stays as it is
+				for _, label := range []string{" %s", "%s ", "\t%s\n"} {
+					if bs.K < 1 {
+						break
+					}
+					roundBefore := string(bs.Snap.Rounds()[rec.Round])
+					id2 := fmt.Sprintf(label, rec.Round)
+					genuine := rec.Log[0]
+					genuine.DkgRoundID = id2
+					var strangers []*requests.SignatureProposalParticipantsEntry
+					for i := 0; i < nt.n; i++ {
+						strangers = append(strangers, &requests.SignatureProposalParticipantsEntry{Username: w.Nodes[i].Name, PubKey: freshKey(fmt.Sprintf("stranger-%d", i)).Public().(ed25519.PublicKey), DkgPubKey: w.Airs[i].PubKeyBytes()})
+					}
+					forged := storage.Message{DkgRoundID: id2, Event: string(spf.EventInitProposal), SenderAddr: "stranger",
+						Data: world.MustJSON(requests.SignatureProposalParticipantsListRequest{Participants: strangers, SigningThreshold: nt.t, CreatedAt: world.T0})}
+					for which, mm := range map[string]storage.Message{"genuine-proposal-again": genuine, "strangers-proposal": forged} {
+						err, after, _ := lab.Step(bs.Snap, mm)
+						evals++
+						classes["proposal-under-padded-id|"+bs.Phase+"|"+which] = true
+						if got := string(after.Rounds()[rec.Round]); got != roundBefore {
+							r.Violation("C10/proposal-under-padded-round-id/"+which, fmt.Sprintf("in %s an opening proposal (%s) posted under this round's id with white space around it (%q) replaced this round's record (error: %v)", bs, which, id2, err), map[string]interface{}{"base": bs.String(), "round_id": id2, "which": which})
+						}
 					}
 				}
 				// ---- (2) replay of recorded messages into another round / under another event name
